@@ -16,7 +16,7 @@ from streams.c08 import sort_ac
 
 S = Sym
 PROPERTY = 'C14'
-PROPS_MODULES = ['C14', 'C14b', 'C14c', 'C14d', 'C03b', 'C13d']
+PROPS_MODULES = ['C14', 'C14b', 'C14c', 'C14d', 'C14e', 'C03b', 'C13d']
 ASSUMPTIONS = ['termination of the Python recursion is observed (every call returned), the model carries explicit fuel and never reported exhaustion']
 
 X = ('field', ('this',), 'x')
